@@ -875,14 +875,23 @@ class Overlay(Widget, WidgetContainerMixin, WidgetContainerListContentsMixin, ty
         if not bottom_c.cols() or not bottom_c.rows():
             return CompositeCanvas(bottom_c)
 
-        top_c = self.top_w.render(self.top_w_size(real_size, left, right, top, bottom), focus)
+        top_size = self.top_w_size(real_size, left, right, top, bottom)
+        if any(dimension <= 0 for dimension in top_size):
+            # a relative width / height rounded down to nothing: there is no room for top_w
+            return CompositeCanvas(bottom_c)
+
+        top_c = self.top_w.render(top_size, focus)
+        if not top_c.cols() or not top_c.rows():
+            return CompositeCanvas(bottom_c)
+
         top_c = CompositeCanvas(top_c)
         if left < 0 or right < 0:
             top_c.pad_trim_left_right(min(0, left), min(0, right))
         if top < 0 or bottom < 0:
             top_c.pad_trim_top_bottom(min(0, top), min(0, bottom))
 
-        return CanvasOverlay(top_c, bottom_c, left, top)
+        # what is left of a clipped top canvas starts at the edge of the bottom canvas
+        return CanvasOverlay(top_c, bottom_c, max(0, left), max(0, top))
 
     def mouse_event(
         self,
